@@ -208,6 +208,7 @@ func genC08Case(t *rapid.T) SSOCase {
 	c := SSOCase{Spec: spec, Host: rapid.SampledFrom(reqHosts).Draw(t, "host")}
 	c.SP = rapid.IntRange(0, len(spec.SPs)-1).Draw(t, "sp")
 	c.Req = genValidAuthn(t, spec, c.SP, c.Host)
+	maybePassive(t, &c.Req)
 	c.Req.ProtocolBinding = rapid.SampledFrom([]string{A, A, world.BindPost, world.BindRedirect, world.BindArtifact, world.BindPAOS, world.BindOther, "urn:example:unlisted"}).Draw(t, "protocolbinding")
 	c.Style = genXMLStyle(t)
 	binding := rapid.SampledFrom([]string{"post", "redirect"}).Draw(t, "transport")
